@@ -370,6 +370,10 @@ class _Walker:
         # ---- sinks expressed as calls
         if "out" in kw_o and written(kw_o["out"]):
             self.sink(e, f"out= of {cn}", kw_o["out"])
+        overwrite = next((k for k in e.keywords if k.arg == "overwrite_input"), None)
+        if overwrite is not None and not (isinstance(overwrite.value, ast.Constant) and overwrite.value.value is False) and arg_o:
+            # np.median / np.percentile / np.partition-style permission to scramble the first argument
+            self.sink(e, f"{cn}(overwrite_input=..)", arg_o[0])
         inplace = next((k for k in e.keywords if k.arg == "inplace"), None)
         if inplace is not None and not (isinstance(inplace.value, ast.Constant) and inplace.value.value is False):
             self.sink(e, f"{meth}(inplace=True)", recv_o)
